@@ -39,6 +39,18 @@ impl<A> Addr<A> {
     pub fn send<M: Message<Response = ()>>(&self, msg: M, Tracked(w): Tracked<&mut World>) -> (r: Result<(), ActorError>)
         ensures one_submit(old(w), final(w), self.chan(), mid_of(&msg), false, r is Ok)
     { unimplemented!() }
+    // addr.rs Addr::force_send (proved in unit addr): the same through the forcing path
+    #[verifier::external_body]
+    pub fn force_send<M: Message<Response = ()>>(&self, msg: M, Tracked(w): Tracked<&mut World>) -> (r: Result<(), ActorError>)
+        ensures one_submit(old(w), final(w), self.chan(), mid_of(&msg), true, r is Ok)
+    { unimplemented!() }
+    // addr.rs Addr::call (proved in unit addr): the payload goes through the FORCING path, then the caller waits for the handler's answer
+    #[verifier::external_body]
+    pub fn call<M: Message>(&self, msg: M, Tracked(w): Tracked<&mut World>) -> (r: Result<M::Response, ActorError>)
+        ensures final(w).lc == old(w).lc && final(w).cells =~= old(w).cells && shared_moved(sh(old(w)), sh(final(w))),
+            r is Ok ==> final(w).trace == old(w).trace.push(Ev::Enq { chan: self.chan(), pid: mid_of(&msg), force: true }).push(Ev::OsRecv { slot: final(w).last_slot }),
+            old(w).trace.is_prefix_of(final(w).trace),
+    { unimplemented!() }
 }
 #[verifier::external_body] #[verifier::accept_recursive_types(M)] pub struct WeakSenderRest<M> { p: core::marker::PhantomData<M> }
 pub struct WeakSender<M> { pub id: ContextID, pub rest: WeakSenderRest<M> }      // weak_sender.rs: `pub(crate) id` is read by the broker
